@@ -86,6 +86,17 @@ func C01(r *report.Report, tier string) {
 			jobs = append(jobs, crashArg{Prop: "C01", DiskSize: 3000, Setup: crashSetup, Ops: h, Cap: cap, MapDesc: true, Probe: crashProbe})
 		}
 	}
+	// histories on a freshly formatted disk whose format has not been installed yet
+	for _, h := range [][]fsx.Op{
+		{{K: "CREATE", H: "root", N: "a"}},
+		{{K: "MKDIR", H: "root", N: "e"}, {K: "CREATE", H: "root/e", N: "x"}},
+		{{K: "CREATE", H: "root", N: "a"}, {K: "WRITE", H: "root/a", Off: 0, Cnt: 5000, Pat: 0x45, Stable: 2}},
+		{{K: "SYMLINK", H: "root", N: "s", Target: "t"}, {K: "RENAME", H: "root", N: "s", H2: "root", N2: "t"}},
+	} {
+		for _, eager := range []bool{false, true} {
+			jobs = append(jobs, crashArg{Prop: "C01", DiskSize: 3000, Ops: h, Cap: cap, Eager: eager, Fresh: true})
+		}
+	}
 	runCrashJobs(r, jobs, map[string]bool{"C01": true})
 	r.Add("states", int64(r.NDistinct()))
 	r.Extra["bounds"] = map[string]int{"depth": depth, "loss_product_cap": cap}
